@@ -109,3 +109,26 @@ def flag_values(facts) -> dict:
             val = e.comparators[0].value if same else (not e.comparators[0].value)
             out[e.left.id] = val if pol else (not val)
     return out
+
+
+def canon_fact(e: ast.AST, pol: bool):
+    """One canonical spelling per fact: `x is None` false == `x is not None` true; `not c` true == `c` false; `a != b` true == `a == b` false."""
+    while True:
+        if isinstance(e, ast.UnaryOp) and isinstance(e.op, ast.Not):
+            e, pol = e.operand, not pol
+            continue
+        if isinstance(e, ast.Compare) and len(e.ops) == 1:
+            op = e.ops[0]
+            flip = {ast.Is: ast.IsNot, ast.NotEq: ast.Eq, ast.NotIn: ast.In}
+            for a, b in flip.items():
+                if isinstance(op, a):
+                    e = ast.Compare(left=e.left, ops=[b()], comparators=e.comparators)
+                    pol = not pol
+                    break
+        break
+    from .model import norm
+    return norm(e), pol
+
+
+def canon_facts(cfg, node, **kw):
+    return [canon_fact(e, pol) for e, pol in guard_facts(cfg, node, **kw)]
